@@ -34,7 +34,7 @@ PROPS = {
                 rule="repeated honest executions with taps; balance of revealed^others for input 0 and 1 (6 sigma), fresh delta and mask vector per party and run, 128-bit canary; distinct by run"),
     "C07": dict(modules=["PolytuneModel.Thm.C06C07"], theorems=["PolytuneModel.C07_mac_view_independent", "PolytuneModel.C07_ashare_opening_independent", "PolytuneModel.C07_cex_ashare_offset", "PolytuneModel.C07_peers_can_compute"], drive="C07", also=["C07m"], only="C07", cases=dict(quick=100, thorough=1000),
                 rule="global key (tap) searched in all sent bytes (both byte orders) and as XOR of two aligned 128-bit fields; distinct by run"),
-    "C08": dict(modules=["PolytuneModel.Thm.C08", "PolytuneModel.Thm.Sites"], theorems=["PolytuneModel.C08_length_guards_present", "PolytuneModel.decVec_bounded", "PolytuneModel.decN_length", "PolytuneModel.C08_ashare_no_panic", "PolytuneModel.C08_dvalue_no_panic", "PolytuneModel.C08_cex_ashare_dm_short", "PolytuneModel.C08_cex_dvalue_short"], drive="C08", cases=dict(quick=150, thorough=1),
+    "C08": dict(modules=["PolytuneModel.Thm.C08", "PolytuneModel.Thm.Sites", "PolytuneModel.Thm.C08masked"], theorems=["PolytuneModel.Masked.C08_masked_no_panic", "PolytuneModel.Masked.C08_cex_masked_extra_some", "PolytuneModel.Masked.merge_inRange", "PolytuneModel.C08_length_guards_present", "PolytuneModel.decVec_bounded", "PolytuneModel.decN_length", "PolytuneModel.C08_ashare_no_panic", "PolytuneModel.C08_dvalue_no_panic", "PolytuneModel.C08_cex_ashare_dm_short", "PolytuneModel.C08_cex_dvalue_short"], drive="C08", cases=dict(quick=150, thorough=1),
                 rule="every adversary message index x 8 byte-level classes (sampled in quick), structure-aware classes on nested vectors, crash after k-th message; oracle: Ok or Err, no panic, no hang, no allocation > 64x bytes + 1 MiB; distinct by (victim role, phase, class, outcome)"),
     "C09": dict(modules=["PolytuneModel.Thm.C09"], theorems=["PolytuneModel.C09_len_value_independent", "PolytuneModel.C09_len_formula", "PolytuneModel.C09_shares_msg", "PolytuneModel.C09_masked_msg", "PolytuneModel.C09_labels_msg", "PolytuneModel.C09_row_len"], drive="C09", cases=dict(quick=40, thorough=400),
                 rule="two executions per public configuration (different inputs and coins); per ordered pair the (phase,len) sequence vs the model's pattern of the public parameters; distinct by (circuit, p_eval, p_out)"),
